@@ -43,7 +43,7 @@ def val(v):
 
 def judge_call(exp, r, redefined):
     """'' or the reason the observed outcomes of one call are not what the lambda list prescribes."""
-    paths = ["direct", "funcall", "apply", "fwd"] + (["old", "site"] if redefined else [])
+    paths = ["direct", "funcall", "apply", "fwd"] + (["old", "site"] if redefined else []) + (["map2"] if "map2" in r else [])
     for path in paths:
         c = r[path]
         if c.get("fault"):
@@ -59,6 +59,10 @@ def judge_call(exp, r, redefined):
         got = val(c["v"]) or []
         if got != [val(x) for x in exp["vals"]] and got != [val(x) for x in exp["vals2"]]:
             return f"{path}: parameters bound to {got}, want {[val(x) for x in exp['vals']]}"
+    # called twice by mapcar: the second call (integers 1000 higher) binds what a direct call with those arguments binds
+    if "map2" in r and exp["ok"] and not r["map2"]["st"] and not r["direct2"]["st"]:
+        if r["map2b"]["st"] or val(r["map2b"]["v"]) != val(r["direct2"]["v"]):
+            return f"map2: second call by mapcar bound {val(r['map2b'].get('v', {'k': 'nil'}))}, a direct call with the same arguments {val(r['direct2']['v'])}"
     # the function that ignores its parameters: it must run exactly when the binding succeeds
     c = r["const"]
     if not exp["ok"] and exp["why"] != "default-form-error" and not c["st"]:
